@@ -54,3 +54,14 @@ func H_models_fmt() {
 	}
 	symReach("end")
 }
+
+// the third session message is meant to be incompressible: its compressed
+// form is larger than the message (a precondition of the kernels that use it)
+func H_models_incompressible() {
+	m := c01Msgs(3)[2]
+	raw, err := m.Bytes()
+	symAssert(err == nil, "serialise-ok")
+	p := NewProposal(m.MID(), m.Subject(), Wl2kProposal, raw)
+	symAssert(len(p.compressedData) > len(raw), "compressed-form-larger-than-the-message")
+	symReach("end")
+}
